@@ -190,6 +190,30 @@ fn faults<F: Family>(p: &F::Packet, t: &mut Tape, ctx: &mut Ctx) -> CaseResult {
                 ctx.label("one-shot-failure:retryable-kind");
             }
         }
+        // the transport fails at that position and has nothing more afterwards (a reset connection: one error, then the
+        // end of the stream): the error the decoders hand on is the transport's, not "end of stream"
+        if k < len {
+            let all_kinds = crate::checks::c14::kinds();
+            let kind = all_kinds[(i + 2 * k) % all_kinds.len()];
+            if kind != ErrorKind::UnexpectedEof {
+                let mut rd = ScriptedReader::new(&enc[..k], &[]).with_fault_shape((shape_ctr % sio::ERR_SHAPES as usize) as u8);
+                rd.fail_once_at = Some((k, kind));
+                let mut state: mqtt_proto::GenericPollPacketState<F::Header> = Default::default();
+                let (res, _) = sio::drive(mqtt_proto::GenericPollPacket::new(&mut state, &mut rd), k + 16);
+                match &res {
+                    Err(e) if io_kind::<F>(e) == Some(kind) => {}
+                    other => viol!("poll decoder: the transport failed with {:?} at byte {} of {} and reports the end of the stream from then on; the decoder returned {:?}; packet {}", kind, k, len, other.as_ref().map(|q| fam::render(&q.2)), fam::render(p)),
+                }
+                let mut rd = ScriptedReader::new(&enc[..k], &[]);
+                rd.fail_once_at = Some((k, kind));
+                let (res, _) = sio::drive(F::decode_async(&mut rd), k + 16);
+                match &res {
+                    Err(e) if io_kind::<F>(e) == Some(kind) => {}
+                    other => viol!("async decoder: the transport failed with {:?} at byte {} of {} and reports the end of the stream from then on; the decoder returned {:?}; packet {}", kind, k, len, other.as_ref().map(|q| fam::render(q)), fam::render(p)),
+                }
+                ctx.label("failure-then-end-of-stream");
+            }
+        }
         // end-of-stream at that position
         if k < len {
             let (r, _) = fam::dec_async::<F>(&enc[..k]);
